@@ -8,6 +8,6 @@ INVARIANT TypeOK
 INVARIANT SizeCheck
 INVARIANT DictBudget
 INVARIANT NoMutationVisitsAll
-INVARIANT DictNoRepeatWithoutReinsert
+INVARIANT DictNoRepeatWithoutStore
 INVARIANT PyxDictAgreesOffHazard
 INVARIANT Publish
